@@ -38,7 +38,7 @@ hs_unitChar = hs_alpha | Word(u'%_/$' + u''.join([
     for c in range(0x0080, 0xffff)
 ]), exact=1)
 hs_unit = Combine(OneOrMore(hs_unitChar))
-hs_digit = Regex(r'\d')
+hs_digit = Regex(r'[0-9]')
 hs_digits = Regex(r'[0-9_]+')
 # The unit follows the number immediately; blanks *before* the number are fine
 hs_quantity = (hs_decimal + hs_unit.copy().leaveWhitespace()).setParseAction(
@@ -127,7 +127,7 @@ hs_time = hs_time_str.copy().setParseAction(_parse_time)
 
 hs_tzHHMMOffset = Combine(
     CaselessLiteral('z') |
-    (hs_plusMinus + Regex(r'\d\d:\d\d')))
+    (hs_plusMinus + Regex(r'[0-9][0-9]:[0-9][0-9]')))
 
 hs_isoDateTime = Combine(
     hs_date_str +
